@@ -23,7 +23,10 @@ Judge(r) ==
   ELSE LET rs == r.scn.reqs  pol == r.scn.policy  ap == r.scn.apps
            badk == {k \in DOMAIN rs : ~ResponseOK(pol, ap, rs[k], r.obs.res[k])}
            rt == BuildApp(ap)
-           dr == {k \in DOMAIN rs : ~Agrees(Mech(rt, pol, rs[k]), r.obs.res[k]) /\ ~Agrees(MechBT(rt, pol, rs[k]), r.obs.res[k])}
+           \* (under the mount prefix of a gated application the gate answers -- unless the greedy descent took the request to a sibling
+           \*  of the mount point, which is C04's subject: either answer explains the observation)
+           dr == {k \in DOMAIN rs : /\ ~(Gated(ap, rs[k]) /\ Agrees(Bite(pol, rs[k], GateInner(rs[k])), r.obs.res[k]))
+                                     /\ ~Agrees(Mech(rt, pol, rs[k]), r.obs.res[k]) /\ ~Agrees(MechBT(rt, pol, rs[k]), r.obs.res[k])}
        IN [ok |-> badk = {} /\ Len(r.obs.res) = Len(rs),
            sig |-> [class |-> IF badk = {} THEN "ok" ELSE "requests-outside-the-property", nbad |-> ToString(Cardinality(badk))],
            bad |-> [j \in 1..Cardinality(badk) |-> LET k == SetToSeq(badk)[j] IN [k |-> k, sig |-> Sig(pol, ap, rs[k], r.obs.res[k])]],
